@@ -511,6 +511,39 @@ class FuncAnalysis:
         if isinstance(v, ast.Constant):
             return None     # docstring
         self._pending_path_guards = 0
+        # x.update(A if c else {}) / x.extend(A if c else [])  is  `if c: x.update(A)`: filling from an
+        # empty container is no mutation
+        if isinstance(v, ast.Call) and isinstance(v.func, ast.Attribute) and v.func.attr in ('update', 'extend') \
+                and len(v.args) == 1 and not v.keywords and isinstance(v.args[0], (ast.Name, ast.IfExp)):
+            n0, cnt0, new0 = len(self.events), self._counters(), getattr(self, '_n_new', 0)
+            a = self.ev(v.args[0])
+            if a[0] == 'ite':
+                def empty(x):
+                    return x[0] == 'call' and x[1][0] == 'g' and isinstance(x[1][1], str) and x[1][1].startswith('$new_')
+                arm = None
+                if empty(a[2]) and not empty(a[3]):
+                    cond, arm = T.not_(a[1]), a[3]
+                elif empty(a[3]) and not empty(a[2]):
+                    cond, arm = a[1], a[2]
+                if arm is not None:
+                    k = getattr(self, '_n_fill', 0) + 1
+                    self._n_fill = k
+                    cn, an = f'$fillcond{k}', f'$fillarg{k}'
+                    self.env[cn], self.env[an] = cond, arm
+                    call = ast.Call(v.func, [ast.Name(an, ast.Load())], [])
+                    st = ast.If(ast.Name(cn, ast.Load()), [ast.Expr(call)], [])
+                    ast.fix_missing_locations(ast.copy_location(st, s))
+                    for x in ast.walk(st):
+                        if not hasattr(x, 'lineno'):
+                            ast.copy_location(x, s)
+                    r = self._s_If(st)
+                    self.env.pop(cn, None)
+                    self.env.pop(an, None)
+                    return r
+            # not that idiom: forget the trial evaluation of the argument
+            del self.events[n0:]
+            self._restore_counters(cnt0)
+            self._n_new = new0
         t = self.ev(v, stmt=True)
         n, self._pending_path_guards = self._pending_path_guards, 0
         return None, n
@@ -633,6 +666,22 @@ class FuncAnalysis:
                 self.env.pop(tmp, None)
             return None
         v = self.ev(s.value)
+        if len(s.targets) == 1 and isinstance(s.targets[0], ast.Name) and s.targets[0].id in self._mutated \
+                and isinstance(s.value, ast.DictComp) and v[0] == 'dict' and v[1] \
+                and all(kv[0] == 'kv' and kv[1][0] == 'c' and isinstance(kv[1][1], str) for kv in v[1]):
+            # a comprehension that builds a known literal, filled further later: as for a literal
+            name = s.targets[0].id
+            first = ast.copy_location(ast.Assign([ast.Name(name, ast.Store())], ast.Dict([], [])), s)
+            self._s_Assign(first)
+            for i, kv in enumerate(v[1]):
+                tmp = f'$lit{s.lineno}_{i}'
+                self.env[tmp] = kv[2]
+                st = ast.copy_location(ast.Assign([ast.Subscript(ast.Name(name, ast.Load()), ast.Constant(kv[1][1]), ast.Store())],
+                                                  ast.Name(tmp, ast.Load())), s)
+                ast.fix_missing_locations(st)
+                self._s_Assign(st)
+                self.env.pop(tmp, None)
+            return None
         if len(s.targets) == 1 and isinstance(s.targets[0], ast.Name) and s.targets[0].id in self._mutated \
                 and isinstance(s.value, (ast.List, ast.Dict, ast.Set)) and v[0] in ('list', 'dict', 'set'):
             # a mutable literal that is mutated later is an object, not a value
@@ -944,11 +993,23 @@ class FuncAnalysis:
         it = self.ev(s.iter)
         if it[0] == 'call' and it[1][0] == 'attr' and it[1][2] == 'keys' and not it[2] and not it[3]:
             it = it[1][1]           # iterating a mapping is iterating its keys
+        indexed = None
+        if it[0] == 'call' and it[1] == T.G('range') and len(it[2]) == 1 and not it[3] and isinstance(s.target, ast.Name) \
+                and it[2][0][0] == 'call' and it[2][0][1] == T.G('len') and len(it[2][0][2]) == 1 and not it[2][0][3]:
+            # for i in range(len(xs)): ... xs[i] ...   is   for i, x in enumerate(xs): ... x ...
+            indexed = it[2][0][2][0]
+            it = T.call(T.G('enumerate'), (indexed,))
         li = self._new_loop(s, 'for', it)
         self._emit('loop', s, loop=li.id, iter=it)
 
         def bind():
-            self._bind_loop_target(s.target, it, li, ())
+            if indexed is not None:
+                idx = mk_elem(it, li.id, (0,))
+                self.env[s.target.id] = idx
+                li.targets[s.target.id] = idx
+                self.env[('$s', indexed, idx)] = mk_elem(it, li.id, (1,))
+            else:
+                self._bind_loop_target(s.target, it, li, ())
         self._loop_body(li, s, bind)
         return None
 
@@ -1026,8 +1087,13 @@ class FuncAnalysis:
             self._withs.append(cm)
             n += 1
         st = self._block(s.body)
+        res = list(self._last_residual) if st is None else []
         for _ in range(n):
             self._withs.pop()
+        if res:
+            # what an inner `if x: return` of the with-body leaves behind also holds after the block
+            self._guards.extend(res)
+            return None, len(res)
         return st
 
     _s_AsyncWith = _s_With
@@ -1318,6 +1384,42 @@ class FuncAnalysis:
         elts = [T.subst(e, ren) for e in elts]
         return tuple(gens), elts
 
+    @staticmethod
+    def _unroll_comp(gens, elts):
+        """A comprehension over a literal list of constants (possibly enumerate(...) of it) is the literal
+        it builds: [[elt terms per item], ...] or None."""
+        if len(gens) != 1 or gens[0][3]:
+            return None
+        pat, it = gens[0][1], gens[0][2]
+
+        def literal(x):
+            if x[0] == 'call' and x[1] == T.G('$obj') and len(x[2]) == 2:
+                x = x[2][0]
+            if x[0] in ('list', 'tuple') and 0 < len(x[1]) <= 16 and all(e[0] == 'c' for e in x[1]):
+                return list(x[1])
+            return None
+        items = None
+        if it[0] == 'call' and it[1] == T.G('enumerate') and len(it[2]) == 1 and not it[3]:
+            lit = literal(it[2][0])
+            if lit is not None:
+                items = [T.tup([T.C(i), e]) for i, e in enumerate(lit)]
+        else:
+            lit = literal(it)
+            if lit is not None:
+                items = lit
+        if items is None:
+            return None
+        out = []
+        for item in items:
+            if pat[0] == 'bv':
+                m = {pat: item}
+            elif pat[0] == 'tuple' and item[0] == 'tuple' and len(pat[1]) == len(item[1]) and all(p[0] == 'bv' for p in pat[1]):
+                m = dict(zip(pat[1], item[1]))
+            else:
+                return None
+            out.append([T.subst(e, m) for e in elts])
+        return out
+
     def _e_ListComp(self, n):
         gens, (elt,) = self._comp(n, 'list', [n.elt])
         return ('comp', 'list', elt, gens)
@@ -1339,6 +1441,9 @@ class FuncAnalysis:
                     and v == ('attr', pat[1][1], 'values') \
                     and it[0] == 'call' and it[1][0] == 'attr' and it[1][2] == 'items' and not it[2]:
                 return it[1][1]
+        un = self._unroll_comp(gens, [k, v])
+        if un is not None:
+            return ('dict', tuple(('kv', kk, vv) for kk, vv in un))
         return ('comp', 'dict', ('kv', k, v), gens)
 
     # -- helpers the checker has never heard of ------------------------------------------------
